@@ -518,6 +518,36 @@ func unrollOne(f *Function, opt UnrollOptions) (string, bool) {
 	return "", false
 }
 
+// ThreadSwitchNilTests threads `v := φ(objects..., nil); if v != nil` when the merge joins at least minEdges ways in
+// (the end of a type switch whose default leaves the variable nil, tested afterwards instead of handled in a
+// default arm): every way in goes straight to the side its value decides, which is the shape of a switch with a
+// default arm.
+func ThreadSwitchNilTests(fns []*Function, minEdges int) []string {
+	var notes []string
+	for _, f := range fns {
+		if f.Blocks == nil || f.Recover != nil {
+			continue
+		}
+		for again, n := true, 0; again && n < 8; n++ {
+			again = false
+			for _, b := range f.Blocks {
+				if len(b.Preds) < minEdges {
+					continue
+				}
+				if threadNilTest(f, b) {
+					rebuild(f)
+					simplifyPhis(f)
+					removeUnusedPhis(f)
+					notes = append(notes, f.String()+": nil test behind a merge of many alternatives threaded")
+					again = true
+					break
+				}
+			}
+		}
+	}
+	return notes
+}
+
 // removeUnusedPhis drops φ-nodes nothing refers to (the per-field results of an inlined helper on the side of the
 // merge that only returns the error), repeatedly.
 func removeUnusedPhis(f *Function) {
